@@ -34,7 +34,7 @@ CHECKS = {
               "batch recursion of the force history in effect (Valid, FinalIsBatch), the cache is coherent whenever used, and no "
               "action touches a column beyond the one addressed. Every exported maximal history is then replayed into the real "
               "generators (SolveUnc real / complex / cd_as_force, SolveCDF, SolveExp2; order 0/1; rb/el/rf blocks; m None/vector/"
-              "matrix; the 7 initial-condition rules exported by the spec - zero, d0, v0, d0+v0, static, static+d0, static+v0) and after EVERY action ts._force (exactly), d and v (all columns incl. the stale ones "
+              "matrix / matrix that is not symmetric (coupled kinds); the 7 initial-condition rules exported by the spec - zero, d0, v0, d0+v0, static, static+d0, static+v0) and after EVERY action ts._force (exactly), d and v (all columns incl. the stale ones "
               "the spec predicts) are compared with the terms interpreted by the batch solver's two-sample tsolve; finalize() d,v,a "
               "vs batch tsolve; get_f2x vs measured unit add-on increments (order 1). Growth (specs/OdeReuse.tla): ONE solver object used "
               "for a history of public calls (tsolve / fsolve / complete generator session / get_f2x; hidden slots modelled by their last "
@@ -64,7 +64,9 @@ CHECKS = {
               "code-shaped fold is the declarative envelope (first attaining base case in traversal order), order independence, the label law of "
               "each doappend mode, idempotence / delete / clean-slate laws and merge(split(R)) = R; every history of 2 (thorough 3) actions is "
               "replayed on real hierarchies built with merge(), the whole tree (keys, presence of 'extreme', ext, ext_x, labels, cases, mx/mn "
-              "columns, names, base results untouched) compared after every action, stale entries included."),
+              "columns, names, base results untouched) compared after every action, stale entries included. ApplyUF MergeLaws: the merge of an "
+              "old uf tuple with a new one per method (replace / multiply / callable; None keeps, 0 is a value) over None / 0 / values in "
+              "hundredths is exported and bound to DR_Event.add on events that already hold definitions."),
         ref="4/C16",
         note=("Trusted: TLC, the generic term evaluator (numpy). Ties: any attaining case/abscissa accepted. One-column semantics as in "
               "the repo's own test (col 1 largest |v| keeping sign, col 2 smallest). psd_data_recovery only through the shared "
@@ -85,7 +87,8 @@ CHECKS = {
               "the same representation): frequency vectors given as float32 and int64 are run serially and in parallel (genuine defect repaired, "
               "fix: 77f40a0). Decide / DecideLaws: the decision table of parallel = auto / yes / no x frequencies x signal size around the 50000 "
               "threshold x getresp x processors x maxcpu is exported and replayed (simulated processor count, requested pool size observed, worker "
-              "events through H1, result = serial)."),
+              "events through H1, result = serial). Signals given as float32 / int64 / int16 are run serially and in parallel (the shared copy "
+              "is a conversion, not a block copy)."),
         ref="4/C09",
         note=("Trusted: TLC; fork start method; visibility of RawArray writes after Pool exit; hook H1 (commit in MANIFEST.hooks) placed "
               "around the writes. A turnstile time-out is exit 2 (machinery), never a violation. Differences that need an exact tie "
@@ -134,7 +137,7 @@ CHECKS = {
               "x |I16 header) with stress values, three matrices per file incl. duplicate names, and read with load (dense, sparse, "
               "auto), read, dir and named subsets (skipper must land on the next header). code <- files: all shipped OUTPUT4 sample "
               "files are tokenised as words of the grammar and the neutral decode is compared with pyYeti's reads and listings. "
-              "OUTPUT2: see level note."),
+              "OUTPUT2: see level note (incl. skip-then-read: skipping a record of 1-3 physical parts leaves the next read on the next record)."),
         ref="4/C04-C11",
         note=("Trusted: TLC; harness/phys_op4.py. OUTPUT2 matrix/table framing is covered by the OP2 part of the driver "
               "(harness/drive_C11_op2.py); table CONTENT decoding (GEOM1, BGPDT, ...) is not in scope."),
@@ -169,11 +172,15 @@ CHECKS = {
               "writer and read by the matching reader: SPOINT with THRU, CSUPER, EXTRN (id/DOF pairs, expanded and not), case-control "
               "SET at three wrap widths, TABLED1 in both field widths for 1..N points (data-line count from the spec), DMIG for four "
               "dtypes (types 1-4; entry coordinates on the cards must equal the spec's Entries, e.g. lower triangle only for form 6), "
-              "GRID and CORD2x sweeps. The written text is also parsed by a neutral fixed-column cell splitter so that a compensating "
+              "GRID and CORD2x sweeps. Mode `perms`: every ARRANGEMENT of up to 5 (thorough 6) distinct ids out of 6 (7) at two offsets "
+              "(PermLaws: THRU items are maximal stretches of adjacent +1 steps, expansion gives the ids in the given order) through SPOINT "
+              "(list and ndarray), SET (two widths) and CSUPER. USET tables of 2-6 grids whose input / output systems are drawn from basic "
+              "and a CORD2R <- CORD2C <- CORD2S chain in any arrangement go through uset2bulk / bulk2uset (same grids, locations, transforms) "
+              "and mkcordcardinfo / wtcoordcards / rdcord2cards (every system read back = the one in the table). The written text is also parsed by a neutral fixed-column cell splitter so that a compensating "
               "writer+reader pair of bugs is still seen."),
         ref="4/C13",
-        note=("Trusted: TLC, the neutral cell splitter. Values to the precision of the written format. uset2bulk/bulk2uset is not "
-              "exercised (its own repository test already fails on this numpy). A genuine defect was repaired (wttabled1 with fewer "
+        note=("Trusted: TLC, the neutral cell splitter. Values to the precision of the written format. USET tables are in grid-id order (what a "
+              "USET table is; bulk2uset sorts). A genuine defect was repaired (wttabled1 with fewer "
               "points than one line, fix: 3f60caa)."),
         technique="TLA+ enumeration of list/table/matrix shapes with declarative content laws (TLC) + write->read replay and neutral text parse",
     ),
@@ -248,9 +255,11 @@ CHECKS = {
               "{2,3,4,7}) and the documented recurrence as rule terms (u_-1, F_-1, replaced F_0, the three-force average with A, "
               "A1, A0, extrapolated last force, central differences, static rf). The driver applies the rules with the generic "
               "evaluator and compares SolveNewmark's d, v, a and z[...] over a lattice {diagonal, full} x mass {None, vector, "
-              "matrix, singular} x rf x ic x 0-2 nonlinear terms x nt. CDF: every step of SolveCDF / cd_as_force must satisfy the "
+              "matrix, singular} x rf x start {zero, d0+v0, d0 only, v0 only} x 0-3 nonlinear terms (cubic, gap, velocity-dependent backward "
+              "difference reading column j-1, i.e. the u_-1 column at the first call) x nt. CDF: every step of SolveCDF / cd_as_force must satisfy the "
               "defining implicit relation (exact diagonal step driven by f - C_od v at both ends), with the exact diagonal step "
-              "from the terms of specs/OdeModel.tla at 40 digits. Laws: diagonal damping => SolveCDF bit-identical to SolveUnc; "
+              "from the terms of specs/OdeModel.tla at 40 digits - for histories produced by tsolve and by the generator with steps "
+              "taken again after stepping ahead (different force the first time). Laws: diagonal damping => SolveCDF bit-identical to SolveUnc; "
               "error ladder h..h/32 against the exact solver (first order for Newmark, second order with a consistent start); "
               "boundedness for w*h up to 5e3 incl. a massless DOF."),
         ref="4/C17",
@@ -274,7 +283,9 @@ CHECKS = {
               "function = bilinear transform at 5-6 points of the unit circle incl. the prewarp frequency. specs/SSObjects.tla: models as "
               "objects on a heap - any earlier object may be converted again; TLC checks Immutable / DerivationExtendsSource / "
               "CallsConsistent on every history of 3 (thorough 4) calls, and each history is replayed on real SSModel objects (row- and "
-              "column-major inputs): every object is re-read after every call and compared with a fresh replay of its derivation."),
+              "column-major inputs): every object is re-read after every call and compared with a fresh replay of its derivation. The expmint "
+              "lattice carries the structure `diagonal` (exactly uncoupled A, singular class) and splits the scale of A h between A and h "
+              "(A x 2^-10, 2^10, 2^-30 with h compensating): classification by absolute size of A's entries is then observable."),
         ref="4/C07",
         note=("Trusted: TLC, mpmath, the generic term evaluator. Tolerance = 10 x (measured change of the exact result under a 64-ulp "
               "dense relative perturbation of A + 40 ulp): loss of 1-2 digits beyond that is not detected; comparisons whose sensitivity "
@@ -393,7 +404,8 @@ CHECKS = {
               "(UpWindow, UpLaws checked by TLC on 600 cases): factor ceil(ppc fmax / sr), resampled length per method (lanczos kM, fft "
               "k(M - M mod 2), linear kM - 1), appended cycle and window start of the RESAMPLED record at the new rate - replayed for every "
               "option point (quick 1/48): resp['sr'], shapes, resp['t'], spectrum = statistic of the returned history, and for ic='zero' "
-              "the history equals the exact response to the record resampled by the public linroll / lanroll / fftroll."),
+              "the history equals the exact response to the record resampled by the public linroll / lanroll / fftroll. Frequency vectors are "
+              "given ascending and reversed (the appended cycle is one period of the LOWEST positive frequency wherever it stands)."),
         ref="4/C03",
         note=("Trusted: TLC, generic evaluator. rolloff='none' for exactness (resampling accuracy is C19). ic='steady' at exactly 0 Hz "
               "is not compared for reldisp/pvelo/pacce (singular static offset). vrs to 1% (end-band quadrature detail)."),
